@@ -25,7 +25,7 @@ class FunctionSpec:
     def __init__(self, prop, file, qualname, glob, setup, post, raises=None, invariants=None, comp_hooks=None,
                  local_stubs=None, loop_keep=None, variant=None, lemmas=None, decode=None, theory=None,
                  super_=None, local_stub=None, ground=None, source_root=None, notes=None, fn_hook=None,
-                 interp=None, hints=None):
+                 interp=None, hints=None, budgets=None):
         self.prop, self.file, self.qualname = prop, file, qualname
         self.glob = glob
         self.setup, self.post, self.raises = setup, post, raises
@@ -44,6 +44,7 @@ class FunctionSpec:
         self.fn_hook = fn_hook
         self.interp = interp
         self.hints = hints
+        self.budgets = budgets
         self.reached = set()
 
     @property
@@ -127,8 +128,12 @@ def verify(spec):
                                 else __builtins__.__build_class__, '__import__': __import__}
         glob['__name__'] = 'pyvc_extracted'
         info = {}
-        fn, info = rewrite.load_function(spec.file, spec.qualname, glob, cut_loops=spec.invariants.keys(),
-                                         local_stubs=spec.local_stubs.keys(), report=info)
+        if getattr(spec, 'fn_override', None) is not None:
+            # the spec drives (possibly several) real functions itself, loaded through pyvc.inline
+            fn, info = spec.fn_override, dict(getattr(spec, 'fn_info', {}))
+        else:
+            fn, info = rewrite.load_function(spec.file, spec.qualname, glob, cut_loops=spec.invariants.keys(),
+                                             local_stubs=spec.local_stubs.keys(), report=info)
         if spec.fn_hook is not None:
             fn = spec.fn_hook(fn, glob)
         res.info = info
@@ -171,7 +176,7 @@ def verify(spec):
         res.outcomes = outcomes
         res.reached = sorted(spec.reached)
         for ob in c.obligations:
-            discharge(ob, lemmas, ground, interp=spec.interp, hints=spec.hints)
+            discharge(ob, lemmas, ground, interp=spec.interp, hints=spec.hints, budgets=spec.budgets)
             if os.environ.get('PYVC_TRACE'):
                 print('   [%s] %-8s %6.2fs path=%d %s %s' % (time.strftime('%H:%M:%S'), ob.status, ob.time, ob.path,
                                                            ob.name.split('::')[-1], ob.note), flush=True)
